@@ -20,10 +20,10 @@ Definition bo_flags (bo : breakOp) : bool * bool :=
   | breakMandatory => (true, true)
   end.
 
-Definition lstep (s : lst) (r next : obs) : lst * (bool * bool) :=
+Definition lstep (s : lst) (r next : obs) (aft : lbc) : lst * (bool * bool) :=
   let line := rule_lb1 r (l_nextLine s) in
   let nt := update_num_sequence (l_ns s) line in
-  let bo := line_decision (l_p0 s) (l_pp s) line (l_bs s) (l_last s) (l_base s) r (o_lb next) (l_ri s) (snd nt) in
+  let bo := line_decision (l_p0 s) (l_pp s) line (l_bs s) (l_last s) (l_base s) r aft (l_ri s) (snd nt) in
   let cmz := lbq line LB_CM || lbq line LB_ZWJ in
   let p0 := l_p0 s in
   let isStart := match p0 with None => true | Some _ => false end in
@@ -37,9 +37,9 @@ Definition lstep (s : lst) (r next : obs) : lst * (bool * bool) :=
 
 Definition linv_i (cr : cursor) (i : Z) : Prop := (i = 0 <-> c_prevLine cr = None).
 
-Lemma step_lproj cr i r next : 0 <= i -> linv_i cr i ->
-  lproj (fst (fst (step cr i r next))) = fst (lstep (lproj cr) r next)
-  /\ (fun a => (a_line a, a_mandatory a)) (snd (fst (step cr i r next))) = snd (lstep (lproj cr) r next).
+Lemma step_lproj cr i r next aft : 0 <= i -> linv_i cr i ->
+  lproj (fst (fst (step cr i r next aft))) = fst (lstep (lproj cr) r next aft)
+  /\ (fun a => (a_line a, a_mandatory a)) (snd (fst (step cr i r next aft))) = snd (lstep (lproj cr) r next aft).
 Proof.
   intros Hi Hinv. unfold step, lstep. cbv zeta.
   cbn [lproj l_nextLine l_ns l_p0 l_pp l_bs l_last l_base l_ri start_iteration
@@ -58,7 +58,7 @@ Proof.
     (split; [unfold end_iteration, lproj; cbn; rewrite Hst; reflexivity | reflexivity]).
 Qed.
 
-Lemma linv_i_step cr i r next : 0 <= i -> linv_i cr i -> linv_i (fst (fst (step cr i r next))) (i + 1).
+Lemma linv_i_step cr i r next aft : 0 <= i -> linv_i cr i -> linv_i (fst (fst (step cr i r next aft))) (i + 1).
 Proof.
   intros Hi Hinv. unfold linv_i. split; [lia|]. intros E. exfalso. revert E.
   unfold step. cbv zeta.
@@ -139,9 +139,9 @@ Definition linv (left : list obs) (s : lst) : Prop :=
 Lemma linv_init text : linv [] (lproj (new_cursor text)).
 Proof. unfold linv. cbn. repeat split; try reflexivity; try discriminate; try (intros H; contradiction). Qed.
 
-Lemma linv_step left s r next :
+Lemma linv_step left s r next aft :
   linv left s -> l_nextLine s = o_lb r ->
-  linv (r :: left) (fst (lstep s r next)) /\ l_nextLine (fst (lstep s r next)) = o_lb next.
+  linv (r :: left) (fst (lstep s r next aft)) /\ l_nextLine (fst (lstep s r next aft)) = o_lb next.
 Proof.
   intros (H1 & H2 & H3 & H4 & H5 & H6 & H7) Hn.
   split; [|reflexivity].
@@ -254,14 +254,36 @@ Definition flags_of (d : lbr) : bool * bool :=
 Lemma bo_flags_lbr bo : bo_flags bo = flags_of (to_lbr bo).
 Proof. destruct bo; reflexivity. Qed.
 
+Lemma is_line_mark_lb1 o : is_line_mark o = is_mark (lb1 o).
+Proof. unfold is_line_mark, lb1. destruct (o_lb o); try reflexivity. destruct (o_mnmc o); reflexivity. Qed.
+
+Lemma first_non_mark_nu : forall l,
+  lbc_beq (first_non_mark l) LB_NU = match skip_marks l with o :: _ => lbc_beq (lb1 o) LB_NU | [] => false end.
+Proof.
+  induction l as [|o l IH]; [reflexivity|].
+  cbn [first_non_mark skip_marks]. rewrite is_line_mark_lb1.
+  destruct (is_mark (lb1 o)); [exact IH|]. symmetry. apply lb1_preserved. auto.
+Qed.
+
+Lemma lb1_ophy o : cin (lb1 o) [LB_OP; LB_HY] = lbq (o_lb o) LB_OP || lbq (o_lb o) LB_HY.
+Proof. unfold lb1, lbq. destruct (o_lb o); try reflexivity; destruct (o_mnmc o); reflexivity. Qed.
+
+(* the repaired look-ahead of LB25 reads the class after the marks attached to an (OP | HY) *)
+Lemma after_marks_nu r right' :
+  cin (lb1 r) [LB_OP; LB_HY] = true ->
+  lbc_beq (after_marks r right') LB_NU = match skip_marks right' with o :: _ => lbc_beq (lb1 o) LB_NU | [] => false end.
+Proof.
+  intros H. rewrite lb1_ophy in H. unfold after_marks. destruct right' as [|n r'']; [reflexivity|].
+  rewrite H. cbn [andb skip_marks]. rewrite is_line_mark_lb1.
+  destruct (is_mark (lb1 n)); [apply first_non_mark_nu|]. symmetry. apply lb1_preserved. auto.
+Qed.
+
 Lemma ldecision a left' s r next right' :
   linv (a :: left') s -> l_nextLine s = o_lb r ->
   obs_wf_l a = true -> obs_wf_l r = true ->
-  next = match right' with [] => obs_psep | n :: _ => n end ->
-  f3_position (a :: left') (r :: right') = false ->
-  snd (lstep s r next) = flags_of (lb_decision (a :: left') (r :: right')).
+  snd (lstep s r next (after_marks r right')) = flags_of (lb_decision (a :: left') (r :: right')).
 Proof.
-  intros (H1 & H2 & H3 & H4 & H5 & H6 & H7) Hn Hwa Hwr Hnext Hf3.
+  intros (H1 & H2 & H3 & H4 & H5 & H6 & H7) Hn Hwa Hwr.
   unfold lstep. cbv zeta. cbn [snd]. rewrite bo_flags_lbr. f_equal.
   rewrite Hn, rule_lb1_lb1, H1, H2, H4, H6, H7. cbn [hd].
   specialize (H5 (eff_nonempty a left')).
@@ -305,7 +327,7 @@ Proof.
   (* the model side is model_core on the same context *)
   transitivity (to_lbr (model_core (mk_x p (lb1 r) a0k sv (eis e1 [LB_HL]) (o_wide bo) (o_pic bo && o_cn bo) (o_wide r)
                     (Nat.odd (leading_ri ((p, bo) :: e1))) (numctx_of ((p, bo) :: e1)) nx)
-                    (is_lb (l_pp s) LB_HL) (lbc_beq (o_lb next) LB_NU))).
+                    (is_lb (l_pp s) LB_HL) (lbc_beq (after_marks r right') LB_NU))).
   { unfold model_core, mk_x. cbn [x_p x_b0 x_s x_a0 x_base_wide x_base_piccn x_b_wide x_ri_odd x_num].
     f_equal. f_equal.
     - (* before spaces *)
@@ -338,17 +360,7 @@ Proof.
       apply andb_true_iff in Eg as [Eg1 Eg2].
       assert (Hnm : is_mark (lb1 r) = false) by (destruct (lb1 r); try discriminate Eg2; reflexivity).
       unfold nx. rewrite Hnm. cbn [negb andb].
-      rewrite Hnext. destruct right' as [|n right''].
-      * reflexivity.
-      * rewrite <- (lb1_preserved n LB_NU) by auto.
-        cbn [skip_marks]. destruct (is_mark (lb1 n)) eqn:Hmn.
-        -- (* the next rune is a mark: excluded pattern unless no NU follows *)
-           assert (E1 : lbc_beq (lb1 n) LB_NU = false) by (destruct (lb1 n); try discriminate Hmn; reflexivity).
-           rewrite E1.
-           unfold f3_position in Hf3. fold e in Hf3. rewrite Ee in Hf3.
-           cbn [eis] in Hf3. rewrite Eg1, Eg2, Hmn in Hf3. cbn [andb] in Hf3.
-           cbn [skip_marks] in Hf3. rewrite Hmn in Hf3. rewrite Hf3. reflexivity.
-        -- apply eqb_reflx.
+      rewrite (after_marks_nu r right' Eg2). apply eqb_reflx.
 Qed.
 
 (* ---------- the whole text ---------- *)
@@ -384,22 +396,20 @@ Definition next_lb (rest : list obs) : lbc := match rest with [] => o_lb obs_pse
 Lemma lrun_body : forall rest left s,
   linv left s -> left <> [] -> l_nextLine s = next_lb rest ->
   forallb obs_wf_l left = true -> forallb obs_wf_l rest = true ->
-  f3_free_from left rest = true ->
   removelast (srun lstep s rest) = removelast (map flags_of (lb_positions left rest)).
 Proof.
-  induction rest as [|r rest IH]; intros left s Hinv Hne Hnl Hl Hr Hf.
+  induction rest as [|r rest IH]; intros left s Hinv Hne Hnl Hl Hr.
   - reflexivity.
   - cbn [forallb] in Hr. apply andb_true_iff in Hr as [Hwr Hr].
-    cbn [f3_free_from] in Hf. apply andb_true_iff in Hf as [Hf1 Hf]. apply negb_true_iff in Hf1.
     cbn [srun lb_positions map].
     set (next := match rest with [] => obs_psep | n :: _ => n end).
     rewrite !removelast_cons by (apply lrun_nonempty || (intros E; apply map_eq_nil in E; revert E; apply lb_positions_nonempty)).
     destruct left as [|a left']; [contradiction|].
     cbn [forallb] in Hl. apply andb_true_iff in Hl as [Hwa Hl'].
     cbn [next_lb] in Hnl.
-    rewrite (ldecision a left' s r next rest Hinv Hnl Hwa Hwr eq_refl Hf1).
+    rewrite (ldecision a left' s r next rest Hinv Hnl Hwa Hwr).
     f_equal.
-    destruct (linv_step (a :: left') s r next Hinv Hnl) as (Hinv' & Hnl').
+    destruct (linv_step (a :: left') s r next (after_marks r rest) Hinv Hnl) as (Hinv' & Hnl').
     apply IH; try assumption.
     + discriminate.
     + rewrite Hnl'. unfold next, next_lb. destruct rest; reflexivity.
@@ -407,10 +417,10 @@ Proof.
 Qed.
 
 Lemma line_lemma text :
-  forallb obs_wf_l text = true -> f3_free text = true ->
+  forallb obs_wf_l text = true ->
   exists attrs, compute_attrs text = Ok attrs /\ map lflags attrs = map flags_of (lb_spec text).
 Proof.
-  intros Hwf Hf3. unfold compute_attrs.
+  intros Hwf. unfold compute_attrs.
   destruct (loop_total text (new_cursor text) 0 [] ltac:(lia) (wne_ok_new text)) as (attrs & E & L).
   rewrite E. cbn [bind]. eexists; split; [reflexivity|].
   assert (HI0 : linv_i (new_cursor text) 0) by (unfold linv_i; cbn; split; auto).
@@ -421,13 +431,12 @@ Proof.
   destruct text as [|r0 rest].
   - destruct attrs as [|a [|b l]]; cbn in L; try lia. reflexivity.
   - cbn [forallb] in Hwf. apply andb_true_iff in Hwf as [Hw0 Hwr].
-    unfold f3_free in Hf3. cbn [f3_free_from] in Hf3. apply andb_true_iff in Hf3 as [_ Hf3].
     cbn [srun] in Ht.
     set (next := match rest with [] => obs_psep | n :: _ => n end) in Ht.
     destruct attrs as [|a0 tl]; [discriminate|].
     cbn [map] in Ht.
-    assert (Ha0 : lflags a0 = snd (lstep (lproj (new_cursor (r0 :: rest))) r0 next)) by congruence.
-    assert (Htl : map lflags tl = srun lstep (fst (lstep (lproj (new_cursor (r0 :: rest))) r0 next)) rest) by congruence.
+    assert (Ha0 : lflags a0 = snd (lstep (lproj (new_cursor (r0 :: rest))) r0 next (after_marks r0 rest))) by congruence.
+    assert (Htl : map lflags tl = srun lstep (fst (lstep (lproj (new_cursor (r0 :: rest))) r0 next (after_marks r0 rest))) rest) by congruence.
     clear Ht.
     assert (Hne : tl <> []). { intros ->. symmetry in Htl. revert Htl. apply lrun_nonempty. }
     destruct tl as [|a1 tl']; [contradiction|].
@@ -446,7 +455,7 @@ Proof.
     rewrite (app_removelast_last' (lb_positions [r0] rest) Allowed) by apply lb_positions_nonempty.
     rewrite last_lb_positions, map_app. cbn [map flags_of].
     f_equal. change (lflags a1 :: map lflags tl') with (map lflags (a1 :: tl')). rewrite Htl.
-    destruct (linv_step [] (lproj (new_cursor (r0 :: rest))) r0 next (linv_init _) eq_refl) as (Hinv1 & Hnl1).
+    destruct (linv_step [] (lproj (new_cursor (r0 :: rest))) r0 next (after_marks r0 rest) (linv_init _) eq_refl) as (Hinv1 & Hnl1).
     rewrite (lrun_body rest [r0] _ Hinv1); try assumption.
     + rewrite map_removelast. reflexivity.
     + discriminate.
